@@ -563,7 +563,14 @@ func (w *world) serverSend(m tr.M, hdr tr.M) {
 			panic(err)
 		}
 	} else {
-		encryptWithPadding(w.rng, key, data, body.Buf, pad, out)
+		padn := encryptWithPadding(w.rng, key, data, body.Buf, pad, out)
+		h2 := tr.M{}
+		for k, v := range hdr {
+			h2[k] = v
+		}
+		h2["padn"] = padn // the padding length actually used (block alignment may enlarge the requested class)
+		h2["unaligned"] = pad == "unaligned"
+		hdr = h2
 	}
 	ev := tr.M{"ev": "srv", "msg": m, "n": len(w.srvMsgIDs) - 1}
 	if hdr != nil {
@@ -580,7 +587,7 @@ func (r rawEnc) Encode(b *bin.Buffer) error { b.Put(r); return nil }
 // encryptWithPadding builds a server->client ciphertext with a chosen padding class
 // ("p0","p4","p8" < 12, "p1024", "p1040" > 1024, "unaligned" = data length % 4 != 0) from the public
 // crypto primitives (the library's own Encrypt always pads 12..1024).
-func encryptWithPadding(rng *rand.Rand, key crypto.AuthKey, d crypto.EncryptedMessageData, body []byte, pad string, out *bin.Buffer) {
+func encryptWithPadding(rng *rand.Rand, key crypto.AuthKey, d crypto.EncryptedMessageData, body []byte, pad string, out *bin.Buffer) int {
 	n := map[string]int{"p0": 0, "p4": 4, "p8": 8, "p12": 12, "p1024": 1024, "p1040": 1040, "unaligned": 16}[pad]
 	plain := &bin.Buffer{}
 	plain.PutLong(d.Salt)
@@ -613,6 +620,7 @@ func encryptWithPadding(rng *rand.Rand, key crypto.AuthKey, d crypto.EncryptedMe
 	out.Put(key.ID[:])
 	out.Put(msgKey[:])
 	out.Put(enc)
+	return n
 }
 
 // ---------------------------------------------------------------- steps
